@@ -79,6 +79,15 @@ PROPS["C16"] = {
     "explanation": "validator languages vs documented formats", "assumptions": ["documented formats pinned in spec/c16_formats.json"],
 }
 
+PROPS["C06"] = {
+    "modules": ["harness.c06"], "level": "model_checking", "design_ref": "DESIGN.md 2/C06",
+    "level_text": "Each query runs on the real in-memory store for enumerated 4-node shapes with the class of every node, the relation of every edge and the "
+                  "requested relations/classes as symbolic strings and the start/end nodes as symbolic indices; results are compared with an oracle computed "
+                  "from the edge list (set comprehension, BFS, brute-force simple paths). Any exception is a counterexample.",
+    "level_note": XH_NOTE + " Shapes are enumerated (quick: 4 shapes; thorough: 8), graphs of 4 nodes, a decoy graph with the same node ids shares the store.",
+    "explanation": "neighbour/path queries vs oracle", "assumptions": [],
+}
+
 NOT_APPLICABLE = {
     "C01": "every value on the GraphML/JSON text path crosses expat/lxml/json C code and temp files, where a symbolic value is "
            "concretised; what remains would be concrete sampling, i.e. a different technique (store-level half is decided under C04/C20)",
